@@ -619,5 +619,78 @@ def run_c18(chk):
         sessions.append(s.ops)
         chk.case((seed, tuple(seq)), nontrivial=True, sample={"seed": seed, "args": seq})
         chk.count("seed>=2^33" if seed >= M else "seed<2^33")
+    # the sequence belongs to the seed, not to the statement that draws: draws made from the prompt, from a stored program
+    # under RUN, after a STOP and CONT, after a second RUN, after an edit and after a failed statement continue ONE sequence
+    # (missed seeded change C18-mut8: RUN rebuilt the interpreter and with it the generator)
+    PROGRAM = ["10 PRINT RND(1)", "20 PRINT RND(0)", "30 X = RND(1) : PRINT X", "40 STOP", "50 PRINT RND(1)", "60 IF RND(0) < 2 THEN PRINT RND(1)"]
+    m = 60 if chk.tier == "quick" else 1500
+    for i in range(m):
+        r = chk.rng.fork(("c18p", i))
+        seed = r.choice(SEEDS) if r.chance(0.3) else (r.next() if r.chance(0.6) else r.below(2 ** 33))
+        s = sess.Session(h)
+        s.rand(seed)
+        state = seed % M
+        steps = []
+        stopped = False
+        stored = False
+
+        def expect(kinds, rows, what):
+            nonlocal state
+            got = [f64_of_text(unesc_p(o)) for row in rows if row.kind == "row" for o in row.outputs() if o.startswith("P")]
+            want = []
+            for k in kinds:
+                if k in ("adv", "adv-silent"):
+                    state = (A * state + C) % M
+                if k != "adv-silent":
+                    want.append(state / M)
+            rep = session_replay(s)
+            if any(row.kind != "row" for row in rows):
+                chk.fail("crash:" + rows[-1].f.get("msg", "")[:50], f"seed {seed}, steps {steps}: {rows[-1].raw[:120]}", rep)
+                return False
+            if got != want:
+                chk.fail("rnd-sequence", f"seed {seed}, steps {steps}: {what} printed {got} but the one sequence of the seed gives {want}", rep)
+                return False
+            last = rows[-1].snap().get("rng") if rows else None
+            if last is not None and int(last) != state:
+                chk.fail("rnd-state", f"seed {seed}, steps {steps}: generator state {last}, expected {state}", rep)
+                return False
+            return True
+
+        for _ in range(r.below(7) + 4):
+            step = r.weighted([("imm1", 20), ("imm0", 10), ("store", 14 if not stored else 2), ("run", 30 if stored else 0),
+                               ("cont", 30 if stopped else 0), ("edit", 8 if stored else 0), ("fail", 6), ("let", 5)])
+            steps.append(step)
+            if step == "imm1":
+                ok = expect(["adv"], [s.line("PRINT RND(1)")], "PRINT RND(1) at the prompt")
+            elif step == "imm0":
+                ok = expect(["rep"], [s.line("PRINT RND(0)")], "PRINT RND(0) at the prompt")
+            elif step == "store":
+                rows = [s.line(l) for l in PROGRAM]
+                stored, stopped = True, False
+                ok = expect([], rows, "entering the program")
+            elif step == "run":
+                rows = [s.line("RUN")] + s.run_until_idle()
+                stopped = True
+                ok = expect(["adv", "rep", "adv"], rows, "RUN up to the STOP")
+            elif step == "cont":
+                rows = [s.line("CONT")] + s.run_until_idle()
+                stopped = False
+                ok = expect(["adv", "adv"], rows, "CONT after the STOP")
+            elif step == "edit":
+                rows = [s.line("70 REM " + str(r.below(100)))]
+                stopped = False
+                ok = expect([], rows, "an edit")
+            elif step == "fail":
+                rows = [s.line(r.choice(["PRINT 1/0", "PRINT RND(-1)", "GOTO 12345", "PRINT RND(\"A\")"]))] + s.run_until_idle()
+                stopped = False      # whether a failed statement leaves the breakpoint is C07's business, not this oracle's
+                ok = expect([], rows, "a failing statement")
+            else:
+                rows = [s.line("X = RND(1)")] + s.run_until_idle()
+                ok = expect(["adv-silent"], rows, "an assignment drawing once")
+            if not ok or s.dead:
+                break
+        sessions.append(s.ops)
+        chk.case((seed, tuple(steps)), nontrivial=True, sample={"seed": seed, "steps": steps})
+        chk.count("program-session")
     h.close()
     session_correspondence(chk, "C18-rnd", sessions, ["outcome", "state", "outputs", "snap"])
